@@ -2,7 +2,7 @@
 from harness.props import sysrun
 from harness.sched import monitors as M
 
-PROP_FILE = ['C18', 'C18Frame']
+PROP_FILE = ['C18', 'C18Frame', 'C19']
 
 
 def mons():
@@ -44,5 +44,12 @@ def run(ctx):
                           'permits are back; distinct = distinct event trace')
 
 
+    # the process-pool downloader's shutdown: leaving the with-block (normally or by Ctrl-C) returns
+    # only after the submitter and the workers were told to stop and joined, every download done
+    from harness.props import c19
+    if len(ctx.violations) < 5:
+        c19.sub_check(ctx, 'interrupt')
+
+
 def replay(ctx, data):
-    return sysrun.replay_spec(ctx, data, mons())
+    return sysrun.replay_any(ctx, data, mons())
